@@ -26,7 +26,9 @@ class C01(PropertyCheck):
             "non-ASCII lossless Shift-JIS, c-strings mixed with strings), serialized, parsed back, re-serialized; (B) files produced by an "
             "independent reference writer with layout knobs (permuted pointer table, interleaved label table, strings shared / duplicated / "
             "separated by junk, trailing junk) parsed by the library; (C) the game files in resources/test; (D) exhaustive archives of <= 3 "
-            "cells over {none, 2 strings, 2 pointers, c-string} x label sets x both endiannesses. Non-trivial = content with at least one "
+            "cells over {none, 2 strings, 2 pointers, c-string} x label sets x both endiannesses; (E) archives with EMPTY label buckets "
+            "(write_labels(a, []) / delete_label of the last label), serialized, parsed, and their image parsed with read_labels at the "
+            "bucket's address (None after the round trip). Non-trivial = content with at least one "
             "string or c-string and one pointer or label; distinct = distinct case line.")
     assumptions = ["A-codec: strings are Shift-JIS byte lists that encoding_rs round-trips losslessly (table checked by harness kind `sjischk`)",
                    "big-endian label order: the model's sort key of every name is the library's own decoding of it (case-line group K, "
@@ -49,6 +51,28 @@ class C01(PropertyCheck):
         for c in barandom.coincidence_contents():
             ops = barandom.build_ops(rng, c, shuffle=False, noise=False) + [("lvl", ["3"])]
             cases.append(Case(pyarchive.render_case(c.e, 0, ops), "offset-coincidence"))
+        # (A3) empty label buckets: write_labels(a, vec![]) and delete_label of the last label leave `labels[a] = []`; the bucket
+        # has no image in the file (read_labels: Some([]) before, None after the round trip) - the LABELS (all_labels) are the
+        # same, which is what is compared (state lists labels through all_labels, i.e. non-empty buckets only)
+        for e in "LB":
+            for size in (0, 4, 8, 10, 16):
+                for a in sorted(set([0, 4 * (size // 8), size])):
+                    for other in ([], [("wl", [str(size), "B45"])], [("wl", ["0", "B41"]), ("ws", ["0", "B4142"])] if size >= 4 else [("wl", ["0", "B41"])]):
+                        for make in ([("wls", [str(a), "0"])],
+                                     [("wl", [str(a), "B4c"]), ("dl", [str(a), "0"])] if a + 4 <= size else [("wl", [str(a), "B4c"]), ("wls", [str(a), "0"])],
+                                     [("wls", [str(a), "2", "B4c", "B4d"]), ("dl", [str(a), "1"]), ("dl", [str(a), "0"])] if a + 4 <= size else [("wls", [str(a), "0"]), ("wls", [str(a), "0"])]):
+                            pre = ([("aae", [str(size)])] if size else []) + other
+                            ops = pre + make + [("rl", [str(a)]), ("lvl", ["3"])]
+                            cases.append(Case(pyarchive.render_case(e, 0, ops), "empty-buckets"))
+                            # the image, parsed: the bucket is gone (read_labels = None), nothing else changed
+                            r = pyarchive.Ref(e)
+                            for op, args in pre + make:
+                                r.apply(op, args)
+                            if r.in_domain():
+                                img = r.canonical_image()[0]
+                                line = pyarchive.render_case(e, 0, [("from", [barandom.hexb(img)]), ("rl", [str(a)]), ("lvl", ["3"])])
+                                cases.append(Case(line, "empty-buckets"))
+                                self.meta[line] = ("rl-after", a, size, bool(r.lab.get(a)))
         # (B) knob files
         n = 400 if tier == "quick" else 4000
         for i in range(n):
@@ -98,7 +122,17 @@ class C01(PropertyCheck):
     def oracle(self, case, impl_out, profile):
         if impl_out in ("PANIC", "ABORT", "TIMEOUT", "MISSING-OUTPUT"):
             return "implementation %s" % impl_out
-        if case.stream in ("api-built", "exhaustive-small", "corpus"):
+        if case.stream == "empty-buckets" and " from " in case.line:
+            # parsed image of an archive with an empty bucket at `a`: read_labels(a) is None (Err outside a 4-byte cell)
+            _, a, size, nonempty = self.meta[case.line]
+            st = impl_out.split(" ; ")
+            want = "err:oob" if a + 4 > size else "ok:none"
+            if not st[0].startswith("ok"):
+                return "the library rejects the image of an archive with an empty label bucket: %s" % st[0]
+            if not nonempty and st[1] != want:
+                return "read_labels at the address of an empty bucket after the round trip: want %s got %s" % (want, st[1][:80])
+            return None
+        if case.stream in ("api-built", "exhaustive-small", "corpus", "empty-buckets", "offset-coincidence"):
             if " from " in case.line:
                 return None
             return pyarchive.judge(case.line, impl_out)
@@ -136,12 +170,27 @@ TB = ("Trusted: Coq 8.16.1 kernel (vm_compute, no native_compute), no axioms (Pr
       "ExtrOcamlBasic extraction + hand-written OCaml driver, the Rust harness and Python generators/oracles. ")
 
 MANIFEST = dict(
-    text="Theorems about executable Gallina models of BinArchive::serialize and from_bytes (see Properties/C01.v for the exact list and for "
-         "what is still `_partial`), tied to /repo on every run: the extracted model is compared byte-for-byte (serialize) and state-for-state "
-         "(from_bytes) with the real library on API-built archives, on files from an independent reference writer with layout knobs, on the "
-         "game files and on an exhaustive small family; an independent Python statement of the format (canonical image, expected re-parsed "
-         "content) is the oracle on the implementation's outputs.",
-    note=TB + "Modelled, not verified: HashMap order (association lists; theorems quantify over permutations), Cursor, Vec (A-std); strings "
-              "are Shift-JIS encoded bytes (A-codec); the big-endian label order compares a sort key per name that is a parameter of the model (every theorem holds for every key function) and is supplied by the library's own decoder on every run.",
+    text="Theorems about executable Gallina models of BinArchive::serialize and from_bytes: the parser recovers the content from EVERY "
+         "conforming file (C01_parser_correct: any table order, strings anywhere, shared or duplicated; the format relation is written "
+         "independently of both functions), serialize succeeds on the property's domain and its image conforms and is well-formed "
+         "(C01_serialize_conforms, C01_image_wellformed), and the round trip (C01_round_trip) preserves raw bytes outside annotated cells, "
+         "strings, pointers, labels in per-address order and makes every pending c-string readable, both endiannesses, strings and "
+         "c-strings mixed. 'Same size' is proved in the reading that is true of the format: size' = size + |c-string pool padded to 4|, "
+         "equal sizes when no c-string is pending (C01_same_size_partial); the literal reading is refuted with a pending c-string "
+         "(C01_same_size_full / C01_same_size_refuted: 14 -> 18 bytes). Tied to /repo on every run: the extracted model is compared "
+         "byte-for-byte (serialize) and state-for-state (from_bytes) with the real library on API-built archives, on files from an "
+         "independent reference writer with layout knobs, on the game files, on an exhaustive small family and on archives with empty "
+         "label buckets; an independent Python statement of the format (canonical image, expected re-parsed content) is the oracle on the "
+         "implementation's outputs.",
+    note=TB + "Domain = wf_archive (at most one annotation per cell, cells inside the data and not overlapping, targets and labels <= size, "
+              "NUL-free strings, NON-EMPTY label buckets) and fits32 (image below 4 GiB; beyond it the code truncates `as u32` silently - not "
+              "covered). Empty buckets are API-buildable (write_labels(a, []), delete_label of the last label); the format has no image for "
+              "them: read_labels is Some([]) before and None after the round trip in code and model (Example C01_example_empty_bucket, "
+              "stream empty-buckets); the labels (all_labels) are unchanged, which is the reading of 'the same labels' - that an archive with "
+              "empty buckets serializes like the one without them is checked by correspondence and oracle, not proved. No theorem derives "
+              "wf_archive from API histories (C03_invariant gives only cells-inside-data). "
+              "Modelled, not verified: HashMap order (association lists; theorems quantify over permutations), Cursor, Vec (A-std); strings "
+              "are Shift-JIS encoded bytes (A-codec); the big-endian label order compares a sort key per name that is a parameter of the model "
+              "(every theorem holds for every key function) and is supplied by the library's own decoder on every run.",
     technique="Coq proof (format relation, loop invariants over the pointer and label tables, text-pool invariant) + extracted-model differential check",
     ref="DESIGN.md section 2 (C01)")
